@@ -141,6 +141,18 @@ def run(facts, tier):
                                     f["file"], t.get("ln"), {"chain": facts.path_to(parent3, fid)}))
                     break
     res.oblige(1, True)
+    # positive control of the table on every run: the command-line tools read their arguments (std::env::args), which is
+    # outside the library paths; if the table cannot see that call it cannot see the others either
+    anywhere = 0
+    for f in facts.fns.values():
+        for bi, t in facts.mir_calls(f):
+            c = t.get("callee")
+            if c and any(rx.search(facts.callee_name(c)) and what for rx, what in NONDET):
+                anywhere += 1
+    st3["table_matches_outside_the_library_paths"] = anywhere
+    if anywhere < 2:
+        raise BrokenCheck("R19-3: the table of non-deterministic calls matches %d call(s) in the whole workspace; the tools xq and xe "
+                          "call std::env::args (positive control, floor 2)" % anywhere)
     res.functions_analysed = len(reach3)
     # a re-used context answers like a fresh one that carries the current bindings: writer and readers of the prefix
     # bindings agree (C10-5)
